@@ -49,14 +49,44 @@ int main(int argc, char** argv) {
     nline++;
     vj::Value c = vj::parse(line);
     a64forms::Built bo;
-    bool built = a64forms::build(c, bo);
+    long long lpc = 0, lpos = 0;
+    bool lcase = a64forms::label_case(c, lpc, lpos);
+    Label label;
+    auto fresh = [&]() { code.reset(); code.init(env, kBase); code.set_error_handler(&eh); code.attach(&a); };
+    auto pad_to = [&](size_t pos) -> bool {       // zero bytes up to section offset pos
+      static const uint8_t z = 0;
+      return a.offset() > pos ? false : (a.offset() == pos ? true : a.embed_data_array(TypeId::kUInt8, &z, 1, pos - a.offset()) == Error::kOk);
+    };
+    if (lcase) { fresh(); label = a.new_label(); }
+    bool built = a64forms::build(c, bo, lcase ? &label : nullptr);
+    if (lcase && (lpc < 0 || lpos < 0 || lpc > (64 << 20) || lpos > (64 << 20))) built = false;
     InstId id = bo.inst_id;
     Operand* ops = bo.ops;
     size_t n = bo.n;
     Error err = Error::kInvalidArgument;
+    Error berr = Error::kOk;
     size_t nbytes = 0;
     uint32_t words[8]; size_t nw = 0;
-    if (built) {
+    if (built && lcase) {
+      // label bound BEFORE the instruction (lpos <= pc): bind, pad, emit.  AFTER (lpos > pc): emit (fixup), pad, bind.
+      bool okp = true;
+      if (lpos <= lpc) { okp = pad_to(size_t(lpos)) && a.bind(label) == Error::kOk && pad_to(size_t(lpc)); }
+      else okp = pad_to(size_t(lpc));
+      if (okp) {
+        size_t before = a.offset();
+        err = a.emit_op_array(id, ops, n);
+        nbytes = a.offset() - before;
+        if (err == Error::kOk && lpos > lpc) {
+          if (!pad_to(size_t(lpos))) berr = Error::kInvalidState; else berr = a.bind(label);
+        }
+        if (err == Error::kOk && berr == Error::kOk && nbytes == 4) {
+          uint32_t w; memcpy(&w, a.buffer_data() + before, 4); words[nw++] = w;      // read AFTER bind: the resolved word
+        }
+        if (berr != Error::kOk) err = berr;
+      }
+      fresh();
+    }
+    else if (built) {
       a.set_offset(0);
       size_t before = a.offset();
       err = a.emit_op_array(id, ops, n);
@@ -67,7 +97,7 @@ int main(int argc, char** argv) {
         for (size_t b = 0; b + 4 <= nbytes && nw < 8; b += 4) { uint32_t w; memcpy(&w, p + b, 4); words[nw++] = w; }
       }
       // relocations / fixups must not pile up
-      if (code.reloc_entries().size() > 4096 || a.offset() > (1u << 20)) { code.reset(); code.init(env, kBase); code.set_error_handler(&eh); code.attach(&a); }
+      if (code.reloc_entries().size() > 4096 || a.offset() > (1u << 20)) fresh();
     }
     rec.assign(line, 0, line.size() - 1);
     rec += ",\"known\":"; rec += (id != 0 ? "true" : "false");
